@@ -136,6 +136,7 @@ def check(run):
     depends_on(run, "C12", {"TYPESTATE", "NOMUT", "FORMULA", "ZERODIV", "COPY"})
     depends_on(run, "C06", {"MERGE", "KEYS", "COUNT", "VALUE", "COPY"})
     depends_on(run, "C15", {"DEFAULTS", "CTOR"}, only=lambda rule, inst: inst.startswith("IncrementalSage"))
+    depends_on(run, "C13", {"PAIR"})            # a river metric used as loss reports the value of the single pair (update / get / revert)
     # ---- N ---------------------------------------------------------------------------------------
     sticky = [ev for ev, _ in walk(s.events) if isinstance(ev, ir.Store) and ev.field == "n_inner_samples"]
     run.check(not sticky, "N", "override", sg.where(sticky[0].line if sticky else s.fn.lineno), fq,
